@@ -118,6 +118,25 @@ type Path struct {
 	relativePath string
 }
 
+// revPathSeparator returns the index of the colon that separates
+// `<rev>` from `<path>` in a name of the form `<rev>:<path>` (the
+// first colon outside of braces, as in `git rev-parse`), or -1 if
+// `name` is a plain `<rev>`.
+func revPathSeparator(name string) int {
+	depth := 0
+	for i := 0; i < len(name); i++ {
+		switch {
+		case name[i] == '{':
+			depth++
+		case name[i] == '}' && depth > 0:
+			depth--
+		case name[i] == ':' && depth == 0:
+			return i
+		}
+	}
+	return -1
+}
+
 // Return the path of this object under the assumption that another
 // path component will be appended to it.
 func (p *Path) TreePrefix() string {
@@ -138,14 +157,15 @@ func (p *Path) TreePrefix() string {
 			// `<rev>:<path>`, the entries below it continue the
 			// path; otherwise it is a tree-ish `<rev>`, and the
 			// path starts after a colon.
+			sep := revPathSeparator(p.relativePath)
 			switch {
-			case strings.HasSuffix(p.relativePath, ":"),
+			case sep == -1:
+				return p.relativePath + ":"
+			case sep == len(p.relativePath)-1,
 				strings.HasSuffix(p.relativePath, "/"):
 				return p.relativePath
-			case strings.Contains(p.relativePath, ":"):
-				return p.relativePath + "/"
 			default:
-				return p.relativePath + ":"
+				return p.relativePath + "/"
 			}
 		default:
 			return "???"
